@@ -56,13 +56,15 @@ def main():
         caught = sorted(pid for pid, r in results.items() if all(v['exit'] == 1 and v['violation_lines'] > 0 for v in r.values()))
         dst = os.path.join(VERIF, 'seeded', name)
         os.makedirs(dst, exist_ok=True)
-        shutil.copy(os.path.join(src, 'patch.diff'), dst)
-        shutil.copy(os.path.join(src, 'demo.py'), dst)
+        if os.path.realpath(src) != os.path.realpath(dst):  # re-confirmation of a stored seed works in place
+            shutil.copy(os.path.join(src, 'patch.diff'), dst)
+            shutil.copy(os.path.join(src, 'demo.py'), dst)
         meta = {}
         mp = os.path.join(src, 'meta.json')
         if os.path.exists(mp):
             with open(mp) as f:
                 meta = json.load(f)
+            meta.pop('confirmation', None)
         head = subprocess.run(['git', '-C', '/repo', 'rev-parse', '--short', 'HEAD'], capture_output=True, text=True).stdout.strip()
         meta['confirmation'] = {
             'how': 'tools/seed_save.py: rsync copy of /repo working tree, demo.py run before/after `patch -p1 < patch.diff`, then `SF_REPO=<copy> VERIF_SEED={0,1} python -m sfmon check <id> --tier %s` for each listed check' % tier,
